@@ -207,29 +207,18 @@ def classify_alloc(site, it, st):
     if iv[1] != INF and iv[1] * esz <= ALLOC_LIMIT:
         cls = "CONST" if iv[0] == iv[1] else "TYPE"
         return (cls, iv[1] * esz, "%s in [%s,%s] x %d B" % (_r(v), iv[0], iv[1], esz))
-    # proportional to an existing container
+    # proportional to an existing container: size <= len(X) + small constant for some container X
     if isinstance(v, str):
-        best = None
-        seen = set()
-        front = [(v, 0)]
-        depth = 0
-        while front and depth < 4:
-            nxt = []
-            for x, k0 in front:
-                for (a, b), k in st.le.items():
-                    if a == x and b not in seen:
-                        seen.add(b)
-                        if b.startswith("len:") and k0 + k <= 4096:
-                            best = (b, k0 + k)
-                        nxt.append((b, k0 + k))
-            front = nxt
-            depth += 1
-            if best:
-                break
+        cands = set()
+        for t_ in list(st.iv) + [x for k in st.le for x in k] + [x for sd in st.subdef.values() for x in sd if isinstance(x, str)]:
+            if isinstance(t_, str) and t_.startswith("len:"):
+                cands.add(t_)
         if v.startswith("len:"):
-            best = (v, 0)
-        if best:
-            return ("LEN", None, "%s <= %s%+d (proportional to data already held), x %d B" % (_r(v), best[0], best[1], esz))
+            cands.add(v)
+        for lt in sorted(cands):
+            for kk in (0, 2, 64, 4096):
+                if it.leq(st, v, lt, kk):
+                    return ("LEN", None, "%s <= %s%+d (proportional to data already held), x %d B" % (_r(v), lt, kk, esz))
     return ("UNBOUNDED", None, "%s in [%s,%s] x %d B exceeds %d" % (_r(v), iv[0], iv[1], esz, ALLOC_LIMIT))
 
 
@@ -240,9 +229,9 @@ def _r(v):
 class Analysis:
     """runs the interpreter once per function, caches states"""
 
-    def __init__(self, crate):
+    def __init__(self, crate, closed_world=False):
         self.crate = crate
-        self.ctx = Ctx(crate)
+        self.ctx = Ctx(crate, closed_world=closed_world)
         self.interps = {}
         self.errors = {}
 
